@@ -479,7 +479,7 @@ func main() {
 		"(1) generate; regenerate; regenerate a changed schema set - for namespaces with the segments vendor, internal, testdata, gen.gr, _hidden, cmd, main, x.gr, node_modules, ... and v2 package roots .hidden/vendor (generateWithPackageRoot); " +
 		"(2) failing generations with an obstacle at every stage (regular file where a package directory is needed, non-empty directory where a code file / the all-imports test / the manifest / the custom-typeref init file has to go, undefined type reference, malformed manifest, " +
 		"unwritable directory when not running as root), placed after a first successful generation or present from the start (top-level namespace directory, typeref package, package-root directory, the output directory itself being a regular file), then removed and regenerated; " +
-		"(3) 30 (thorough: 300) seeded random histories per module of generations with obstacles coming and going. After EVERY run, successful or failed: nothing outside the output directory changed, every not-owned file below it is byte-identical, every new file has an owned name; " +
+		"(2b) in the histories of (1) and (2), foreign files named like DECORATIONS of every generated file and directory name are planted right next to them - <name>.tmp, <name>~, <name>.bak, <name>.orig, <name>.new, <name>.old, <name>.lock, <name>.part, .<name>.swp, #<name>#, _<name>, <name>.d/ and (every other history) <name>.tmp/ <name>.bak/ as directories with a file inside, the manifest's and all_imports_test's decorations included - after the first successful generation, and in half of the histories also BEFORE the first generation for the names the schema set will produce; (3) 30 (thorough: 300) seeded random histories per module (decorate steps included) of generations with obstacles coming and going. After EVERY run, successful or failed: nothing outside the output directory changed, every not-owned file below it is byte-identical, every new file has an owned name; " +
 		"a run with no obstacle in place must succeed and leave exactly the owned files of a generation of the same schema set into a fresh directory. One history = one distinct non-trivial input; every generator run = one evaluation")
 	// scratch trees live on tmpfs when there is one (the shared disk is 30x slower under load); C20_SCRATCH overrides
 	scratchBase = os.Getenv("C20_SCRATCH")
